@@ -460,6 +460,28 @@ impl<T> DataReaderEntity<T> {
             return Ok(AddChangeResult::NotAdded);
         }
 
+        // With KEEP_LAST history a new sample for an instance that already holds depth samples
+        // replaces the oldest one of that instance, so the room it frees must be taken into account
+        // before deciding that a resource limit is reached
+        let num_alive_samples_of_instance = self
+            .sample_list
+            .iter()
+            .filter(|cc| {
+                cc.instance_handle == sample.instance_handle && cc.kind == ChangeKind::Alive
+            })
+            .count();
+        let index_sample_to_replace = match self.qos.history.kind {
+            HistoryQosPolicyKind::KeepLast(depth)
+                if num_alive_samples_of_instance >= depth as usize =>
+            {
+                self.sample_list.iter().position(|cc| {
+                    cc.instance_handle == sample.instance_handle && cc.kind == ChangeKind::Alive
+                })
+            }
+            _ => None,
+        };
+        let num_samples_to_replace = usize::from(index_sample_to_replace.is_some());
+
         let is_max_samples_limit_reached = {
             let total_samples = self
                 .sample_list
@@ -467,7 +489,7 @@ impl<T> DataReaderEntity<T> {
                 .filter(|cc| cc.kind == ChangeKind::Alive)
                 .count();
 
-            total_samples == self.qos.resource_limits.max_samples
+            total_samples - num_samples_to_replace >= self.qos.resource_limits.max_samples
         };
         let is_max_instances_limit_reached = {
             let mut instance_handle_list = Vec::new();
@@ -483,15 +505,9 @@ impl<T> DataReaderEntity<T> {
                 instance_handle_list.len() == self.qos.resource_limits.max_instances
             }
         };
-        let is_max_samples_per_instance_limit_reached = {
-            let total_samples_of_instance = self
-                .sample_list
-                .iter()
-                .filter(|cc| cc.instance_handle == sample.instance_handle)
-                .count();
-
-            total_samples_of_instance == self.qos.resource_limits.max_samples_per_instance
-        };
+        let is_max_samples_per_instance_limit_reached = num_alive_samples_of_instance
+            - num_samples_to_replace
+            >= self.qos.resource_limits.max_samples_per_instance;
         if is_max_samples_limit_reached {
             return Ok(AddChangeResult::Rejected(
                 sample.instance_handle,
@@ -508,25 +524,8 @@ impl<T> DataReaderEntity<T> {
                 SampleRejectedStatusKind::RejectedBySamplesPerInstanceLimit,
             ));
         }
-        let num_alive_samples_of_instance = self
-            .sample_list
-            .iter()
-            .filter(|cc| {
-                cc.instance_handle == sample.instance_handle && cc.kind == ChangeKind::Alive
-            })
-            .count() as u32;
-
-        if let HistoryQosPolicyKind::KeepLast(depth) = self.qos.history.kind {
-            if depth == num_alive_samples_of_instance {
-                let index_sample_to_remove = self
-                    .sample_list
-                    .iter()
-                    .position(|cc| {
-                        cc.instance_handle == sample.instance_handle && cc.kind == ChangeKind::Alive
-                    })
-                    .expect("Samples must exist");
-                self.sample_list.remove(index_sample_to_remove);
-            }
+        if let Some(index_sample_to_replace) = index_sample_to_replace {
+            self.sample_list.remove(index_sample_to_replace);
         }
 
         match sample.kind {
